@@ -218,6 +218,147 @@ def stage_keywords(ctx: Ctx, progs):
                                       {**rec, 'after_src': root.src, 'diffs': d})
 
 
+INTERNAL = ('RuntimeError', 'AssertionError', 'AttributeError', 'TypeError', 'KeyError', 'UnboundLocalError', 'RecursionError', 'WalkFail')
+
+
+def judge_edit(ctx, tag, src, mode, rect, new, parse_kw=None, fst_kw=None):
+    """one put_src(new, rect, 'reparse') on a fresh tree of (src, mode), judged against a from-scratch parse of the splice"""
+    import fst
+    parse_kw, fst_kw = parse_kw or {}, fst_kw or {}
+    ln, col, eln, ecol = rect
+    root = fst.FST(src, mode, **fst_kw)
+    before_dump = ast.dump(root.a, include_attributes=True)
+    want_src = spliced(src, ln, col, eln, ecol, new)
+    rec = {'start_src': src, 'mode': mode, 'rect': list(rect), 'new': new, 'how': tag, **({'options': fst_kw} if fst_kw else {})}
+    try:
+        root.put_src(new, ln, col, eln, ecol, 'reparse')
+        err = None
+    except Exception as e:
+        err = e
+    ctx.tick((hash(src) & 0xffffff, tag, mode, tuple(rect), new), f'raw:{tag}:' + ('ok' if err is None else 'raise'))
+    ref = None
+    if mode == 'exec':
+        try:
+            ref = ast.parse(want_src + '\n' if want_src.endswith('\\\n') else want_src, **parse_kw)
+        except (SyntaxError, ValueError):
+            ref = None
+    if err is not None:
+        if root.src != src or ast.dump(root.a, include_attributes=True) != before_dump:
+            ctx.violation(f'failed-but-changed|{tag}|{type(err).__name__}', 'a raw edit raised and left source or tree changed', {**rec, 'error': repr(err), 'after_src': root.src})
+        elif type(err).__name__ in INTERNAL or type(err).__name__.startswith('_'):
+            ctx.violation(f'internal-error|{tag}|{type(err).__name__}', 'a raw edit raised an internal error instead of applying or refusing the edit', {**rec, 'error': repr(err)[:300]})
+        elif ref is not None and not isinstance(err, NotImplementedError):
+            ctx.violation(f'valid-refused|{tag}|{type(err).__name__}', 'the spliced whole source is valid but the raw edit was refused', {**rec, 'error': repr(err), 'want_src': want_src})
+        return
+    if root.src != want_src:
+        ctx.violation(f'source-not-splice|{tag}', 'the source after the raw edit is not the requested splice', {**rec, 'after_src': root.src, 'want_src': want_src})
+        return
+    if mode == 'exec':
+        if ref is None:
+            ctx.violation(f'accepted-invalid|{tag}', 'the raw edit succeeded although the new whole source does not parse', {**rec, 'after_src': root.src})
+            return
+        d = cmp_ast(root.a, ref, positions=True)
+        if not d and parse_kw.get('type_comments'):
+            tc = lambda t: [(type(n).__name__, getattr(n, 'type_comment', None)) for n in ast.walk(t) if hasattr(n, 'type_comment')]
+            if tc(root.a) != tc(ref):
+                d = [f'type_comment: {tc(root.a)} != {tc(ref)}']
+    else:
+        # a fragment root: the tree must be what parsing the new source gives, in the mode the root has now (own verify) and, when the
+        # new source still parses in the original mode to the same kind of node, exactly that tree
+        d = None
+        try:
+            root.verify()
+        except Exception as e:
+            d = [f'verify: {e!r}'[:300]]
+        if not d:
+            try:
+                again = fst.FST(want_src, mode, **fst_kw)
+            except Exception:
+                again = None
+            if again is not None and type(again.a) is type(root.a):
+                d = cmp_ast(root.a, again.a, positions=True)
+    if d:
+        ctx.violation(f'tree-differs|{tag}|{d[0].split(":")[-1].strip()[:40]}', 'the tree after the raw edit differs from a from-scratch parse of the new source',
+                      {**rec, 'after_src': root.src, 'diffs': d})
+
+
+FRAGMENTS = [('expr', 'f(a * b, d)'), ('expr', '[a, b.c, (d, e)]'), ('expr', '{k: v, **r}'), ('expr', 'a if b else c'), ('expr', 'x[1:2, ...]'), ('expr', 'lambda q, *r: (q, r)'),
+             ('expr', 'f"{a!r:>{w}} b"'), ('expr', '(yield z)'), ('expr', 'a < b <= c'), ('expr', 'ü + f(é, *z, k=1)'), ('expr', '[i for i in j if k]'), ('expr', '(\n  a,\n  b,  # c\n)'),
+             ('stmt', 'a = 1'), ('stmt', 'if a: b'), ('stmt', 'for i in j:\n    k\nelse:\n    l'), ('stmt', 'def f(a, b=1): return a'), ('stmt', 'with a as b, c: pass'),
+             ('pattern', '[a, *b, {"k": c}]'), ('pattern', 'C(x, y=1) | D()'), ('match_case', 'case [a, b] if c: pass'), ('ExceptHandler', 'except (A, B) as e: pass'),
+             ('arguments', 'a, /, b=1, *c, d, **e'), ('withitem', 'a as b'), ('keyword', 'k=v + 1'), ('comprehension', 'for a in b if c'), ('alias', 'a.b as c'),
+             ('Tuple', 'a, b, c'), ('_Assign_targets', 'a = b ='), ('_decorator_list', '@a\n@b(c)'), ('_withitems', 'a as b, c'), ('_arglikes', 'a, *b, c=d')]
+FRAG_NEW = ['', 'x', 'b, c', 'b)(c', ')', '(', ', ', 'x, y', '*z', 'k=1', ' ', '\n', 'é', 'x = 1', ': pass', 'a: int', '[', ']', '(a)', 'not ', ' if p else q', ' as n', '# c\n', '**', '|', 'x.y']
+TC_PROGS = ['for a in bb:  # type: int\n    pass\n', 'with aa:  # type: int\n    pass\n', 'def f(aa):\n    # type: (int) -> int\n    pass\n', 'x = []  # type: list\n',
+            'async def g(a, b):  # type: (int, str) -> None\n    for i in a:  # type: int\n        with b as c:  # type: str\n            y = i  # type: int\n',
+            'if q:\n    def h(\n        a,  # type: int\n        b,  # type: str\n    ):\n        # type: (...) -> None\n        pass\n']
+CLAUSE_PROGS = ['for a in b:\n    x = 1\n', 'while a:\n    x = 1\n', 'if a:\n    x = 1\n', 'if a:\n    x = 1\nelif b:\n    y = 2\n', 'try:\n    pass\nexcept A:\n    x = 1\n',
+                'try:\n    x = 1\nexcept A:\n    pass\nexcept B:\n    pass\n', 'try:\n    pass\nexcept* A:\n    x = 1\n', 'try:\n    pass\nexcept* A:\n    pass\nexcept* B:\n    pass\n',
+                'if 1:\n  try:\n    pass\n  except A:\n    pass\n', 'def f():\n    for i in j:\n        if k:\n            x = 1\n', 'with a:\n    x = 1\n',
+                'class C:\n    def m(self):\n        try:\n            x = 1\n        finally:\n            y = 2\n', 'if a:\n  if b:\n    x = 1\n', 'match a:\n    case 1:\n        x = 1\n',
+                'x = 1', 'if a: x = 1\n', 'try: x = 1\nfinally: pass\n']
+CONT_PROGS = ['a = 1 \\\n; b', 'if x:\n    a = 1 \\\n    ; b\n', 'a = 1; \\\n  b = 2\n', 'a = 1 \\\n  ; b \\\n  ; c\n', 'if x: a = 1 \\\n  ; b\n', 'a \\\n\nb\n', 'def f():\n    return 1 \\\n\n']
+STMT_NEW = ['if x: a', 'x', 'def f(): pass', 'a = 1', 'a; w', 'pass  # c', 'while q: r', 'x = (\n  1)', 'x\n\ny', 'for i in j: k', '@d\ndef g(): pass']
+
+
+def stage_targeted(ctx: Ctx, progs):
+    """deterministic sweeps over the shapes random edits rarely hit: fragment (non-Module) roots, block headers with type comments, except <-> except*,
+    new text that appends a clause (else / elif / except / finally) after the last statement of a block, statements joined by a line continuation and ';'"""
+    import fst
+    import re
+    rng = ctx.rng
+    # (1) fragment roots
+    for mode, src in FRAGMENTS:
+        try:
+            root = fst.FST(src, mode)
+        except Exception as e:
+            ctx.broken.append({'kind': 'harness', 'name': 'fragment', 'detail': f'{mode} {src!r}: {e!r}'[:200]})
+            continue
+        locs = sorted({tuple(f.loc) for f in root.walk(True) if f.loc is not None and f.parent is not None})
+        rects = list(locs) + [(l[0], l[1], l[0], l[1]) for l in locs] + [(l[2], l[3], l[2], l[3]) for l in locs]
+        todo = [(r, n) for r in rects for n in FRAG_NEW]
+        for rect, new in (todo if ctx.thorough else rng.sample(todo, min(len(todo), 40))):
+            judge_edit(ctx, 'fragment', src, mode, rect, new)
+    # (2) type comments
+    for src in TC_PROGS:
+        root = fst.FST(src, 'exec', type_comments=True)
+        locs = sorted({tuple(f.loc) for f in root.walk(True) if f.loc is not None and f.parent is not None and isinstance(f.a, (ast.expr, ast.arg))})
+        for rect in locs:
+            for new in ('c', 'x.y', '(p, q)', ''):
+                judge_edit(ctx, 'type-comment', src, 'exec', rect, new, {'type_comments': True}, {'type_comments': True})
+    # (3) except <-> except*, (4) appended clauses
+    for src in CLAUSE_PROGS + [p for p in progs if 'except' in p][:ctx.scale(4, 30)]:
+        lines = src.split('\n')
+        for i, l in enumerate(lines):
+            m = re.match(r'\s*except(\*?)', l)
+            if m:
+                if m.group(1):
+                    judge_edit(ctx, 'except-star', src, 'exec', (i, m.end(0) - 1, i, m.end(0)), '')
+                else:
+                    judge_edit(ctx, 'except-star', src, 'exec', (i, m.end(0), i, m.end(0)), '*')
+        if src in CLAUSE_PROGS:
+            root = fst.FST(src, 'exec')
+            for f in root.walk(True):
+                if isinstance(f.a, ast.stmt) and f.parent is not None and f.next() is None and not isinstance(f.a, (ast.FunctionDef, ast.ClassDef)):
+                    _, _, eln, ecol = f.loc
+                    par = f.parent
+                    indents = {len(lines[eln]) - len(lines[eln].lstrip())}
+                    while par is not None and par.loc is not None:
+                        indents.add(len(lines[par.loc[0]]) - len(lines[par.loc[0]].lstrip()))
+                        par = par.parent
+                    for ind in sorted(indents):
+                        for clause in ('else:', 'elif q:', 'except E:', 'except* E:', 'finally:', 'case _:'):
+                            judge_edit(ctx, 'append-clause', src, 'exec', (eln, ecol, eln, ecol), f'\n{" " * ind}{clause}\n{" " * ind}    pass')
+                            judge_edit(ctx, 'append-clause', src, 'exec', (eln, ecol, eln, ecol), f'\n{" " * ind}{clause} pass')
+    # (5) line continuations and semicolons
+    for src in CONT_PROGS:
+        root = fst.FST(src, 'exec')
+        for f in root.walk(True):
+            if isinstance(f.a, (ast.stmt, ast.expr)) and f.parent is not None and f.loc is not None:
+                for new in STMT_NEW:
+                    judge_edit(ctx, 'continuation', src, 'exec', tuple(f.loc), new)
+
+
 def run(ctx: Ctx):
     ctx.rule = ('random sequences (1..5 quick / 1..14 thorough steps) on corpus + generated programs of: put_src(new, rect, "reparse") on the root or a random node with rectangles '
                 'on node boundaries, off them, spanning statements/blocks, or random; node.replace(text, raw=True); reparse(). new text: fixed hostile list (valid, invalid, '
@@ -232,6 +373,7 @@ def run(ctx: Ctx):
     progs = [p for p in progs if len(p) < 1500]
     run_guarded(ctx, stage_oracle, progs)
     run_guarded(ctx, stage_keywords, progs)
+    run_guarded(ctx, stage_targeted, progs)
 
 
 def replay(path):
